@@ -1,3 +1,7 @@
 //! Verification harness crate for RainDB (Engine A harnesses live behind cfg(kani); native replay in bin/replay.rs).
-pub mod util;
+#![recursion_limit = "512"]
 pub mod faultfs;
+pub mod onefs;
+pub mod util;
+#[cfg(kani)]
+mod proofs;
